@@ -52,3 +52,35 @@ Proof.
   - exists 1%nat. split; [reflexivity|]. intros x. unfold binds, amem. cbn. destruct (String.eqb x "y"); reflexivity.
   - exists O. split; [reflexivity|]. intros x. unfold binds, amem. cbn. destruct (String.eqb x "x"); reflexivity.
 Qed.
+
+(** resolution only annotates (proofs/ResolveProofs.v): erasing the distances from the resolved form gives the
+    original form — the resolved program is the same program with hints on its symbols, so the two runs can differ
+    only where a hinted symbol is read or written, which is what [resolution_agrees] covers.  [binary_defines]:
+    no define has more than two operands (the pass keeps the first two, as the code does). *)
+From WalModel.proofs Require Import ResolveProofs.
+Theorem resolution_only_annotates : forall start e e',
+  binary_defines e = true -> resolve start e = RsOk e' -> erase e' = erase e.
+Proof. exact resolve_erase. Qed.
+Print Assumptions resolution_only_annotates.
+
+Theorem resolution_only_annotates_any_scopes : forall f sc e e' sc',
+  binary_defines e = true -> resolve_vars f sc e = RsOk (e', sc') -> erase e' = erase e.
+Proof. exact resolve_vars_erase. Qed.
+Print Assumptions resolution_only_annotates_any_scopes.
+
+Theorem erase_is : forall e, erase e =
+  match e with
+  | VSym n _ => VSym n None
+  | VList w l => VList w (map erase l)
+  | VUnq x => VUnq (erase x)
+  | VUnqS x => VUnqS (erase x)
+  | _ => e
+  end.
+Proof. intros e. destruct e; reflexivity. Qed.
+Print Assumptions erase_is.
+
+(** resolving twice is resolving once (also used by C16) *)
+Theorem resolution_idempotent : forall f sc e e' sc',
+  resolve_vars f sc e = RsOk (e', sc') -> resolve_vars f sc e' = RsOk (e', sc').
+Proof. exact resolve_vars_idem. Qed.
+Print Assumptions resolution_idempotent.
